@@ -17,6 +17,22 @@ Template data protocol (all are environment globals bound to one ``Data``):
     agen(n)        *data* async generator 1..n (event + suspension per item)
     tree           nested dicts for recursive loops
     layout, flag   for dynamic / conditional extends
+    mk(kind, src)  an iterable of the given KIND over 1..src (int) or over the
+                   sequence src (n.kids, pairs, ...); kinds (KINDS below):
+                     sgen    sync generator object             (event per item)
+                     sit     iterator object (__iter__ -> self, __next__)
+                     sobj    object with __iter__ only, returning a list iterator
+                     sgobj   object whose __iter__ is a generator function
+                     agen    data async generator              (event + suspension)
+                     aiter   async iterator, __aiter__ -> self, no aclose()
+                     aobj    object whose __aiter__ returns a new async iterator
+                     agobj   object whose __aiter__ is an async generator function
+                     wgen    sync generator wrapped by user code in an async
+                             generator that closes it in a finally
+                   every object made is registered in Data.iterables
+    pairs          [(1, 2), (3, 4), (5, 6)]
+    gpairs(kind)   list of three 2-item iterables of a sync kind (unpacked by
+                   ``for a, b in``)
 """
 from __future__ import annotations
 
@@ -45,6 +61,86 @@ class _AIter:
         return self.i
 
 
+class _SIter:
+    def __init__(self, d, seq):
+        self.d, self.it = d, iter(seq)
+
+    def __iter__(self):
+        return self
+
+    def __next__(self):
+        self.d._event()
+        return next(self.it)
+
+
+class _SObj:
+    def __init__(self, d, seq):
+        self.d, self.seq = d, seq
+
+    def __iter__(self):
+        return iter(self.seq)
+
+
+class _SGObj:
+    def __init__(self, d, seq):
+        self.d, self.seq = d, seq
+
+    def __iter__(self):
+        g = self._gen()
+        self.d.iterables.append(("sgobj.__iter__()", g))
+        return g
+
+    def _gen(self):
+        for x in self.seq:
+            self.d._event()
+            yield x
+
+
+class _AIterSeq:
+    def __init__(self, d, seq):
+        self.d, self.it = d, iter(seq)
+
+    def __aiter__(self):
+        return self
+
+    async def __anext__(self):
+        self.d._event()
+        await self.d._suspend()
+        try:
+            return next(self.it)
+        except StopIteration:
+            raise StopAsyncIteration from None
+
+
+class _AObj:
+    def __init__(self, d, seq):
+        self.d, self.seq = d, seq
+
+    def __aiter__(self):
+        return _AIterSeq(self.d, self.seq)
+
+
+class _AGObj:
+    def __init__(self, d, seq):
+        self.d, self.seq = d, seq
+
+    async def __aiter__(self):
+        for x in self.seq:
+            self.d._event()
+            await self.d._suspend()
+            yield x
+
+
+SYNC_KINDS = ["sgen", "sit", "sobj", "sgobj"]
+ASYNC_KINDS = ["agen", "aiter", "aobj", "agobj", "wgen"]
+KINDS = SYNC_KINDS + ASYNC_KINDS
+KIND_TEXT = {"sgen": "sync-generator", "sit": "sync-iterator", "sobj": "iter-only-object",
+             "sgobj": "object-with-generator-__iter__", "sgobj.__iter__()": "sync-generator",
+             "agen": "async-generator", "aiter": "async-iterator-without-aclose",
+             "aobj": "aiter-only-object", "agobj": "object-with-asyncgen-__aiter__",
+             "wgen": "user-wrapped-sync-generator", "wgen.inner": "sync-generator"}
+
+
 class Data:
     def __init__(self, params):
         self.params = params
@@ -59,6 +155,9 @@ class Data:
         self.real = real
         self.boom = None
         self.breaks = 0
+        # (kind, object) of every iterable made by mk() in this run; the strong
+        # references keep them alive until the next reset (after the census)
+        self.iterables = []
 
     def _event(self):
         self.calls += 1
@@ -110,9 +209,61 @@ class Data:
             await self._suspend()
             yield i
 
+    # ---- iterables of every kind
+    def _sgen(self, seq):
+        for x in seq:
+            self._event()
+            yield x
+
+    async def _agen(self, seq):
+        for x in seq:
+            self._event()
+            await self._suspend()
+            yield x
+
+    async def _wgen(self, g):
+        # what user code does to hand a generator to an async consumer
+        try:
+            for x in g:
+                await self._suspend()
+                yield x
+        finally:
+            g.close()
+
+    def mk(self, kind, src):
+        seq = list(range(1, src + 1)) if isinstance(src, int) else list(src)
+        if kind == "sgen":
+            o = self._sgen(seq)
+        elif kind == "sit":
+            o = _SIter(self, seq)
+        elif kind == "sobj":
+            o = _SObj(self, seq)
+        elif kind == "sgobj":
+            o = _SGObj(self, seq)
+        elif kind == "agen":
+            o = self._agen(seq)
+        elif kind == "aiter":
+            o = _AIterSeq(self, seq)
+        elif kind == "aobj":
+            o = _AObj(self, seq)
+        elif kind == "agobj":
+            o = _AGObj(self, seq)
+        elif kind == "wgen":
+            g = self._sgen(seq)
+            self.iterables.append(("wgen.inner", g))
+            o = self._wgen(g)
+        else:
+            raise AssertionError(kind)
+        self.iterables.append((kind, o))
+        return o
+
+    def gpairs(self, kind):
+        return [self.mk(kind, [i, i + 1]) for i in (1, 3, 5)]
+
     def globals(self):
         p = self.params
         return {
+            "mk": self.mk, "gpairs": self.gpairs, "pairs": [(1, 2), (3, 4), (5, 6)],
             "af": self.af, "sf": self.sf, "ok": self.ok, "aok": self.aok,
             "brk": self.brk, "mk_axs": self.mk_axs, "agen": self.agen,
             "xs": list(range(1, p["n"] + 1)), "tree": p["tree"],
@@ -133,6 +284,62 @@ class G:
         self.budget = 0
         self.has_filter = False
         self.block_n = 0
+        self.sites = {}
+
+    # -- iterables: one of every KIND at every iteration site
+    def iterable(self, site, src="3", sync_only=False, classic=True):
+        """An iterable expression for iteration site ``site`` (counted in
+        self.sites as 'site:kind').  classic: the list / range / filter-pipeline
+        / agen() / mk_axs() expressions of the original workload."""
+        r = self.r
+        if classic and r.random() < 0.4:
+            pool = ["xs", "range(1, 5)"] if sync_only else \
+                ["xs", "xs", "mk_axs(3)", "agen(3)", "range(1, 5)", "xs|reject('even')", "mk_axs(4)"]
+            e = r.choice(pool)
+            kind = {"xs": "list", "range(1, 5)": "range", "agen(3)": "agen",
+                    "xs|reject('even')": "filter-result"}.get(e, "aiter")
+        else:
+            kind = r.choice(SYNC_KINDS if sync_only else KINDS)
+            e = "mk('%s', %s)" % (kind, src)
+        k = site + ":" + kind
+        self.sites[k] = self.sites.get(k, 0) + 1
+        self.sites["kind:" + kind] = self.sites.get("kind:" + kind, 0) + 1
+        return e
+
+    def iterating_expr(self):
+        """An expression statement whose filters / tests / targets iterate."""
+        r = self.r
+        c = r.randrange(16)
+        anyk = [  # filters with an async variant: every kind
+            "{{ IT|map('string')|join(',') }}", "{{ IT|select('odd')|list|length }}",
+            "{{ IT|list|sum }}", "{{ IT|sum }}", "{{ IT|first }}", "{{ IT|join('-') }}",
+            "{{ IT|unique|list|length }}", "{{ IT|slice(2)|list|length }}",
+            "{{ IT|reject('even')|first }}", "{{ IT|map('string')|first }}",
+            "{{ IT|select('odd')|map('string')|join }}", "{{ IT|groupby('real')|list|length }}"]
+        synck = [  # Python-level iteration: sync kinds only
+            "{{ IT|batch(2)|list|length }}", "{{ IT|sort|join }}", "{{ IT|max }}",
+            "{{ IT|reverse|list|length }}", "{{ IT|batch(2)|first|length }}"]
+        if c <= 5:
+            return r.choice(anyk).replace("IT", self.iterable("filter"))
+        if c <= 7:
+            return r.choice(synck).replace(
+                "IT", self.iterable("filter-sync", sync_only=True, classic=False))
+        if c <= 9:
+            return r.choice(["{{ 2 in IT }}", "{% if 9 in IT %}Y{% else %}N{% endif %}",
+                             "{{ 1 not in IT }}"]).replace(
+                "IT", self.iterable("in-test", sync_only=True, classic=False))
+        if c <= 11:
+            return "{% set ua, ub = IT %}{{ ua }}{{ af(ub) }}".replace(
+                "IT", self.iterable("unpack-set", "2", sync_only=True, classic=False))
+        if c <= 13:
+            return "{% for ua, ub in IT %}{{ ua }}{{ af(ub) }}{% endfor %}".replace(
+                "IT", self.iterable("unpack-for", "pairs", classic=False))
+        if c == 14:
+            kind = r.choice(SYNC_KINDS)
+            k = "unpack-items:" + kind
+            self.sites[k] = self.sites.get(k, 0) + 1
+            return "{% for ua, ub in gpairs('" + kind + "') %}{{ af(ua) }}{{ ub }}{% endfor %}"
+        return "{% with w = af('" + self.tag() + "') %}{{ w }}{% endwith %}"
 
     def tag(self):
         self.n += 1
@@ -165,7 +372,7 @@ class G:
                 out.append(self.leaf(lv))
                 continue
             self.budget -= 1
-            c = r.randrange(13)
+            c = r.randrange(14)
             if c <= 3:
                 out.append(self.forloop(depth, lv))
             elif c == 4:
@@ -186,13 +393,8 @@ class G:
             elif c == 10:
                 out.append("{% filter upper %}" + self.body(depth - 1, lv, 1, filt)
                            + "{% endfilter %}")
-            elif c == 11:
-                out.append(r.choice([
-                    "{{ mk_axs(3)|map('string')|join(',') }}",
-                    "{{ xs|select('odd')|list|length }}",
-                    "{{ agen(2)|list|sum }}",
-                    "{% with w = af('" + self.tag() + "') %}{{ w }}{% endwith %}",
-                ]))
+            elif c in (11, 12):
+                out.append(self.iterating_expr())
             else:
                 out.append(self.leaf(lv))
         return "".join(out)
@@ -200,10 +402,9 @@ class G:
     def forloop(self, depth, lv):
         r = self.r
         v = f"x{len(lv)}"
-        it = r.choice(["xs", "xs", "mk_axs(3)", "agen(3)", "range(1, 5)",
-                       "xs|reject('even')", "mk_axs(4)"])
         cond = r.choice([f"ok({v})", f"aok({v})", f"{v} is odd", f"{v} != 2",
-                         f"ok({v})", f"aok({v})", None])
+                         f"ok({v})", f"aok({v})", None, None])
+        it = self.iterable("for-if" if cond else "for", r.choice(["3", "4"]))
         filt = 1 if cond else 0
         if cond:
             self.has_filter = True
@@ -235,6 +436,7 @@ class G:
         s = "{% for " + v + " in " + it + (" if " + cond if cond else "") + " %}" + "".join(parts)
         if r.random() < 0.25:
             s += "{% else %}none"
+            self.sites["for-else"] = self.sites.get("for-else", 0) + 1
         return s + "{% endfor %}"
 
     def recursive(self):
@@ -242,8 +444,16 @@ class G:
         cond = r.choice(["ok(n.v)", "aok(n.v)", "n.v != 4"])
         self.has_filter = True
         inner = r.choice(["{{ af(n.v) }}", "{{ n.v }}", "{{ sf(n.v) }}{{ loop.depth }}"])
-        return ("{% for n in tree if " + cond + " recursive %}" + inner
-                + "{% if n.kids %}({{ loop(n.kids) }}){% endif %}{% endfor %}")
+        if r.random() < 0.35:
+            top, kids = "tree", "n.kids"
+            self.sites["recursive:list"] = self.sites.get("recursive:list", 0) + 1
+        else:
+            top = self.iterable("recursive", "tree", classic=False)
+            kids = self.iterable("recursive-kids", "n.kids", classic=False)
+        if r.random() < 0.25:
+            cond = None
+        return ("{% for n in " + top + (" if " + cond if cond else "") + " recursive %}" + inner
+                + "{% if n.kids %}({{ loop(" + kids + ") }}){% endif %}{% endfor %}")
 
     def macro(self, depth, lv):
         r = self.r
@@ -365,7 +575,7 @@ class G:
                   "layout": getattr(self, "layout", "base.j2")}
         return {"tpls": tpls, "roles": roles, "main": "main.j2", "params": params,
                 "kind": kind, "autoescape": r.random() < 0.3, "cold": r.random() < 0.5,
-                "has_filter": self.has_filter}
+                "has_filter": self.has_filter, "sites": dict(sorted(self.sites.items()))}
 
 
 def gen_case(rng):
@@ -394,6 +604,29 @@ FIXED = [
              "{% include 'nope.j2' ignore missing %}{% include incname %}"
              "{% for x in xs if ok(x) %}{% include [nonename, incname] ignore missing %}{% endfor %}Z",
      "inc.j2": "i{{ af('i') }}j{% for x in xs if aok(x) %}{{ x }}{% endfor %}k{{ sf('k') }}l"},
+    {"name": "kinds-for-sync-generator",
+     "main": "{% for x in mk('sgen', 4) %}{{ af(x) }}{% endfor %}tail{{ af('z') }}"},
+    {"name": "kinds-for-break",
+     "main": "{% for x in mk('sgen', 4) %}{{ af(x) }}{% if brk(x, 0) %}{% break %}{% endif %}{% endfor %}"
+             "{% for x in mk('sgobj', 4) if ok(x) %}{{ af(x) }}{% if brk(x, 1) %}{% break %}{% endif %}"
+             "{% endfor %}{% for x in mk('sit', 3) %}{{ loop.index }}{{ af(x) }}{% else %}none{% endfor %}"
+             "tail{{ af('z') }}"},
+    {"name": "kinds-filters-tests-unpacking",
+     "main": "{{ mk('sgen', 3)|first }}{{ mk('sit', 3)|map('string')|join(',') }}"
+             "{{ mk('agobj', 3)|select('odd')|first }}{{ af('e') }}{{ 2 in mk('sgen', 3) }}"
+             "{% set ua, ub = mk('sgen', 2) %}{{ ub }}{{ mk('wgen', 3)|list|sum }}"
+             "{% for ua, ub in gpairs('sgen') %}{{ af(ua) }}{% endfor %}"
+             "{% for ua, ub in mk('aobj', pairs) %}{{ af(ub) }}{% endfor %}{{ mk('sobj', 4)|batch(2)|list|length }}"},
+    {"name": "kinds-recursive",
+     "main": "{% for n in mk('sgen', tree) if ok(n.v) recursive %}{{ af(n.v) }}"
+             "{% if n.kids %}({{ loop(mk('wgen', n.kids)) }}){% endif %}{% endfor %}"
+             "{% for n in mk('agobj', tree) recursive %}{{ af(n.v) }}"
+             "{% if n.kids %}({{ loop(mk('sgobj', n.kids)) }}){% endif %}{% endfor %}"},
+    {"name": "kinds-in-block-include-extends",
+     "main": "{% extends 'base.j2' %}{% block b1 %}{% for x in mk('sgen', 3) if aok(x) %}{{ af(x) }}"
+             "{% include 'inc.j2' %}{% endfor %}{{ super() }}{% endblock %}",
+     "base.j2": "a{% block b1 %}{% for x in mk('aiter', 3) %}{{ af(x) }}{% endfor %}{% endblock %}z{{ af('d') }}",
+     "inc.j2": "i{% for y in mk('sgobj', 2) %}{{ af(y) }}{% endfor %}j"},
     {"name": "import-macro-filter",
      "main": "{% import 'lib.j2' as lib %}{{ lib.mac(2) }}{{ af('e') }}",
      "lib.j2": "{% macro mac(a) %}{% for x in xs if ok(x) %}{{ af(a) }}{% endfor %}{% endmacro %}{{ af('top') }}"},
@@ -412,5 +645,6 @@ def fixed_cases():
         out.append({"tpls": tpls, "roles": roles, "main": "main.j2",
                     "params": {"n": 4, "brk_at": 2, "tree": TREE, "layout": "base.j2"},
                     "kind": "fixed:" + f["name"], "autoescape": False, "cold": True,
-                    "has_filter": "for" in f["main"] or any("for" in v for v in tpls.values())})
+                    "has_filter": "for" in f["main"] or any("for" in v for v in tpls.values()),
+                    "sites": {}})
     return out
